@@ -30,7 +30,7 @@ func init() {
 			"composite literals start at pos 0; data is never reassigned.  Calls reset the bound to the class invariant; pure single-expression predicates are inlined. " +
 			"All obligations discharged = no index/slice panic for any input (proof of that clause).",
 		Props: []string{"C04"},
-		Floor: map[string]int{"v2": 30, "root": 30},
+		Floor: map[string]int{"v2": 22, "root": 22},
 		Run:   runR041,
 	})
 }
@@ -1051,7 +1051,7 @@ func runR041(c *core.Ctx) {
 	}
 	var posF, dataF *types.Var
 	for i := 0; i < st.NumFields(); i++ {
-		switch st.Field(i).Name() {
+		switch core.NameOf(st.Field(i)) {
 		case "pos":
 			posF = st.Field(i)
 		case "data":
